@@ -169,7 +169,8 @@ class Runner:
                     elif q < 0.80: ps.append('%d;2;%d;%d;%d' % (rng.choice([38, 48, 58]), rng.choice([0, 255, 256, 38, 58]), rng.choice([rng.randrange(256), 38, 48, 2, 5]), rng.choice([rng.randrange(256), 2, 5, 58])))
                     elif q < 0.86: ps.append(rng.choice(['38', '48;5', '58;2;1', '38;7', '38;2;1;2']))
                     elif q < 0.92: ps.append(str(rng.choice([77, 256, 1000, 56, 60])))
-                    elif q < 0.96: ps.append(rng.choice([' 1', '1 ', '01', '031', '04', '044', '023', '00', '000']))
+                    elif q < 0.95: ps.append(rng.choice([' 1', '1 ', '01', '031', '04', '044', '023', '00', '000']))
+                    elif q < 0.975: ps.append(rng.choice(['4:3', '4:0', '38:2::1:2:3', ':', '38:5:208', '1:2', '58:2::0:0:255', '4:', ':1', '1:', '3:4:1']))
                     else: ps.append(rng.choice(['+1', 'x', '1:2', '?25', '-1', '1_0', '\u00b2', '\u2460']))
                 if rng.random() < 0.04:
                     # one long sequence: more parameters than any reasonable cap, the ones that matter at the end
@@ -1199,8 +1200,22 @@ class Runner:
         enc = lambda r_: P.line('ok', P.e_settings(r_[0], P.IdMap()), P.e_str(r_[1]))
         self.emit('settingsat', inp, self.outcome_line(out, enc), 'settings_at(%d) on %r' % (i, x._s), viol)
 
+    def kept_seq_value(self):
+        """a value whose *text* holds a control sequence that is not a style (it stays text), in front of a style change
+        that does not start at index 0 — where an index computed from pieces instead of characters goes wrong"""
+        rng = self.rng
+        ctl = rng.choice(['\x1b[2K', '\x1b[1A', '\x1b[?25l', '\x1b[10;20H', '\x1b[2J', '\x1b[3~', '\x1b[', '\x1b[1;3'])
+        pre_, mid, post = self.text(0, 2), self.text(1, 3), self.text(1, 4)
+        x = self.A(pre_ + ctl + mid + post)
+        st = len(pre_ + ctl + mid)
+        x.apply_formatting(rng.choice(['red', 'bold', 'bg_blue', '[1;31']), st, rng.choice([None, st + 1]))
+        if rng.random() < 0.4:
+            x.apply_formatting('underline', rng.randrange(0, st + 1), None)
+        self.add_live(x)
+        return x
+
     def op_simplify(self):
-        x = self.pick()
+        x = self.pick() if self.rng.random() > 0.08 else self.kept_seq_value()
         ids = P.InIds()
         inp = self._inp = P.line('simplify', P.e_astr(x, ids))
         pre = O.Snap(x)
@@ -1258,7 +1273,7 @@ class Runner:
 
     def op_roundtrip(self):
         """AnsiString(str(v)) — recorded as a `new` step on the rendering"""
-        x = self.pick()
+        x = self.pick() if self.rng.random() > 0.08 else self.kept_seq_value()
         s = str(x)
         inp = self._inp = P.line('new', P.e_str(s), [0])
         out = self.call(lambda: self.A(s))
@@ -1613,7 +1628,9 @@ class Runner:
             t = x._s
         regex = rng.random() < 0.35
         if regex:
-            pat = rng.choice(['a+', 'a*', '[ab]', 'b?', '(a)(b)?', '\\s', '.', 'a|b', '^', '$', 'x*', '(?:ab)+', '^a', '^.', '.$', 'b$', '^\\w+', '\\w$', '^[ab]|c$', 'x?|a+', '^|a', 'a*?', '(?=a)|a', '|b'])
+            pat = rng.choice(['a+', 'a*', '[ab]', 'b?', '(a)(b)?', '\\s', '.', 'a|b', '^', '$', 'x*', '(?:ab)+', '^a', '^.', '.$', 'b$', '^\\w+', '\\w$', '^[ab]|c$', 'x?|a+', '^|a', 'a*?', '(?=a)|a', '|b',
+                              # no cased character in the pattern, yet case matters for what it matches
+                              '[@-\\[]+', '[\\101-\\132]+', '[\\x41-\\x5a]', '[^\\W\\d_]+', '[\\141-\\172]', '\\x41', '[`-{]+'])
         else:
             pat = rng.choice([self.pattern(x), self.pattern(x), t, t[:3], t[-3:], '.', 'a.', '(', 'a+', '[', '\\', 'A', 'B', '*', '++', '(a)', '[1+1]', '|', 'a|b', ' | ', '^', '$', '{', '}', 'a{1}', '?'])
         mc = rng.random() < 0.4
@@ -1639,6 +1656,14 @@ class Runner:
                                              [('str', '38'), ('str', '5'), ('str', '9')], [('int', 4), ('int', 58), ('int', 2), ('int', 1), ('int', 2), ('int', 3)]])
         if un and rng.random() < 0.1:
             fmt = [('list', [('int', 1), ('int', 31)])]
+        if rng.random() < 0.08:
+            # one colour given as separate integer arguments, with a value that occurs twice
+            fmt = rng.choice([[('int', 38), ('int', 5), ('int', 5)], [('int', 48), ('int', 2), ('int', 255), ('int', 255), ('int', 0)],
+                              [('int', 1), ('int', 38), ('int', 5), ('int', 1)], [('int', 58), ('int', 5), ('int', 58)],
+                              [('int', 38), ('int', 2), ('int', 2), ('int', 2), ('int', 2)], [('str', 'bold'), ('str', 'bold')]])
+            if un and rng.random() < 0.7:
+                # … and the value carries exactly that colour on some range, so that removing it is visible
+                x.apply_formatting(tuple(P.build_sarg(f, self.mod) for f in fmt), rng.randrange(0, max(1, len(t))), None)
         if regex and rng.random() < 0.06:
             pat = rng.choice(['g(', '(x', '[1', 'a)', '*a', 'a{2', '(?P<n', '\\'])
         try:
@@ -1776,6 +1801,31 @@ class Runner:
                 x.apply_formatting(rng.choice(['red', 'bold']), rng.randrange(len(t)), None)
                 x.apply_formatting('blue', 0, rng.randint(1, len(t)))
         viol = []
+        if exotic and rng.random() < 0.35:
+            # a verbatim setting / a parsed sequence with a parameter longer than the interpreter converts to an int
+            # (sys.get_int_max_str_digits()): still text for the flags, the renderings and the parser — nothing raises
+            import sys as _sys
+            lim = getattr(_sys, 'get_int_max_str_digits', lambda: 4300)() or 4300
+            big = '1' * rng.choice([lim - 1, lim + 1, lim + 700])
+            forms = [lambda: self.A('ab', '[1;' + big), lambda: self.A('ab', self.mod.AnsiSetting(big)),
+                     lambda: self.A('a\x1b[' + big + 'mb\x1b[1;' + big + ';3mc'), lambda: self.S('ab', '[' + big + ';31')]
+            mk = rng.choice(forms)
+            r0 = self.call(mk)
+            if r0[0] != 'ok':
+                viol.append(('C09', 'parse_total', 'a %d-digit parameter: construction raises %r' % (len(big), r0[1])))
+                viol.append(('C15', 'flags_total', 'a %d-digit parameter: construction raises %r' % (len(big), r0[1])))
+                viol.append(('C14', 'verbatim_total', 'a %d-digit parameter: construction raises %r' % (len(big), r0[1])))
+            else:
+                v = r0[1]
+                for nm in ('is_formatting_valid', 'is_formatting_parsable', 'is_optimizable', '__str__', 'to_str', 'is_formatting_parsable'):
+                    r1 = self.call(lambda: getattr(v, nm)())
+                    if r1[0] != 'ok':
+                        viol.append(('C15', 'flags_total', 'a %d-digit parameter: %s() raises %r' % (len(big), nm, r1[1])))
+                        viol.append(('C01', 'render_total', 'a %d-digit parameter: %s() raises %r' % (len(big), nm, r1[1])))
+                        break
+                r2 = self.call(lambda: [q.to_list()[:1] for p_ in (v._s if isinstance(v, str) else v)._fmts.values() for q in p_.add])
+                if r2[0] != 'ok':
+                    viol.append(('C15', 'flags_total', 'a %d-digit parameter: AnsiSetting.to_list() raises %r' % (len(big), r2[1])))
         try:
             a = self.S(x)
         except Exception as e:   # noqa
